@@ -35,6 +35,9 @@ pub struct KeyFamily {
     pub leaf_fan: u32,
     /// values strictly decrease with the key (outputs keep being pushed down)
     pub decreasing: bool,
+    /// every key occurs `repeat` times in a row (only meaningful for sets,
+    /// where a repeated key is a legal no-op); n counts occurrences
+    pub repeat: u32,
 }
 
 impl KeyFamily {
@@ -59,6 +62,10 @@ impl KeyFamily {
     }
     /// Write key `i` into `buf` (reusing its capacity).
     pub fn key_into(&self, i: u64, buf: &mut Vec<u8>) {
+        if self.repeat > 1 {
+            let base = KeyFamily { repeat: 1, n: self.n / self.repeat as u64 + 1, ..*self };
+            return base.key_into(i / self.repeat as u64, buf);
+        }
         if self.leaf_fan > 0 {
             let fan = self.leaf_fan as u64;
             let base = KeyFamily { leaf_fan: 0, pairs: false, n: self.n / fan + 1, fanout: 26, ..*self };
@@ -129,9 +136,11 @@ pub struct MemBuildCase {
     pub every: u64,
     /// acceptance behaviour of the discarding sink
     pub shape: Shape,
-    /// feed all keys through ONE `extend_iter` call over a slice (exact
-    /// size hint) instead of an insert loop
+    /// feed all keys through ONE bulk call instead of an insert loop:
+    /// `extend_iter` over a slice (exact size hint), or `extend_stream`
+    /// from the stream of a source FST built beforehand
     pub bulk: bool,
+    pub bulk_stream: bool,
 }
 
 #[derive(Clone, Debug)]
@@ -194,6 +203,20 @@ pub fn run_mem_build(case: &MemBuildCase) -> MemBuildRun {
     } else {
         Vec::new()
     };
+    // source FST for the extend_stream mode (harness memory, before baseline)
+    let bulk_src: Option<Vec<u8>> = if case.bulk && case.bulk_stream {
+        let mut sb = fst::MapBuilder::memory();
+        let mut prev: Option<&Vec<u8>> = None;
+        for (k, v) in &bulk_items {
+            if prev != Some(k) {
+                sb.insert(k, if case.map { *v } else { 0 }).expect("harness: source fst");
+            }
+            prev = Some(k);
+        }
+        Some(sb.into_inner().expect("harness: source fst"))
+    } else {
+        None
+    };
     let base = alloc::mark();
     let r = catch_unwind(AssertUnwindSafe(|| -> Option<Violation> {
         let mut b = match AnyBuilder::create(front, tap, case.registry) {
@@ -228,10 +251,31 @@ pub fn run_mem_build(case: &MemBuildCase) -> MemBuildRun {
                     }
                 }
             });
-            let r = match &mut b {
-                AnyBuilder::Map(m) => m.extend_iter(it.map(|(k, v)| (k, *v))),
-                AnyBuilder::Set(s) => s.extend_iter(it.map(|(k, _)| k)),
-                AnyBuilder::Raw(r) => r.extend_iter(it.map(|(k, v)| (k, fst::raw::Output::new(*v)))),
+            let r = if case.bulk_stream {
+                drop(it);
+                // peak held heap during the one extend_stream call
+                alloc::reset_peak();
+                let src = bulk_src.as_ref().expect("harness: source fst");
+                let r = match &mut b {
+                    AnyBuilder::Map(m) => m.extend_stream(fst::Map::new(&src[..]).expect("harness: src").stream()),
+                    AnyBuilder::Set(s) => s.extend_stream(fst::Set::new(&src[..]).expect("harness: src").stream()),
+                    AnyBuilder::Raw(r) => r.extend_stream(fst::raw::Fst::new(&src[..]).expect("harness: src").stream()),
+                };
+                let peak = alloc::peak() - base_live;
+                run.checkpoints += 1;
+                if peak > run.max_live {
+                    run.max_live = peak;
+                }
+                if peak > bound {
+                    over = Some((fam.n, peak));
+                }
+                r
+            } else {
+                match &mut b {
+                    AnyBuilder::Map(m) => m.extend_iter(it.map(|(k, v)| (k, *v))),
+                    AnyBuilder::Set(s) => s.extend_iter(it.map(|(k, _)| k)),
+                    AnyBuilder::Raw(r) => r.extend_iter(it.map(|(k, v)| (k, fst::raw::Output::new(*v)))),
+                }
             };
             if let Err(e) = r {
                 return viol("C13.harness.insert_failed", format!("extend_iter: {:?}", e));
@@ -241,7 +285,7 @@ pub fn run_mem_build(case: &MemBuildCase) -> MemBuildRun {
                 return viol(
                     "C13.live_heap_exceeds_bound",
                     format!(
-                        "inside extend_iter over {} items, after {} of them: {} B live > bound {} B (cache {:?})",
+                        "inside one bulk call (extend_iter / extend_stream) over {} items, after {} of them: {} B held > bound {} B (cache {:?})",
                         fam.n, i, live, bound, case.registry.unwrap_or((10_000, 2))
                     ),
                 );
@@ -592,7 +636,7 @@ pub fn run_mem_read(case: &MemReadCase) -> MemReadRun {
     let mut run = MemReadRun::default();
     let r = catch_unwind(AssertUnwindSafe(|| -> Option<Violation> {
         for (which, n) in [(0, case.n_small), (1, case.n_large)] {
-            let fam = KeyFamily { n, fanout: case.fanout, keylen: case.keylen, seed: case.seed, pairs: false, leaf_fan: 0, decreasing: false };
+            let fam = KeyFamily { n, fanout: case.fanout, keylen: case.keylen, seed: case.seed, pairs: false, leaf_fan: 0, decreasing: false, repeat: 1 };
             let fsts = build_family(&fam, case.k);
             let ms = measure_all(&fam, case.k, &fsts);
             if which == 0 {
@@ -919,7 +963,7 @@ pub struct DeltaCase {
 }
 
 fn delta_keys(n: u64, seed: u64, pad: u64) -> (KeyFamily, u64, Vec<u8>) {
-    let fam = KeyFamily { n: std::cmp::max(n, 1), fanout: 26, keylen: 12, seed, pairs: false, leaf_fan: 0, decreasing: false };
+    let fam = KeyFamily { n: std::cmp::max(n, 1), fanout: 26, keylen: 12, seed, pairs: false, leaf_fan: 0, decreasing: false, repeat: 1 };
     let mut last = vec![b'z'];
     last.extend(std::iter::repeat(b'e').take(pad as usize));
     (fam, n, last)
